@@ -68,6 +68,10 @@ def shards(tier):
             out.append({'subset': sub, 'ids': ii, 'pages': BOUNDS[tier]['pages']})
     # biggest state graphs first
     out.sort(key=lambda s: -len(s['subset']))
+    # a parser without an OCR stage that is given PAGE XML + logits of an earlier run and asked for PAGE XML / rendering / ALTO
+    for sub in ([0, 3], [3], [0, 1, 3]):
+        for ii in range(len(ID_SETS)):
+            out.append({'subset': sub, 'ids': ii, 'pages': BOUNDS[tier]['pages'], 'inlogits': 1})
     # resume in several worker processes (the model-free stages, which is what --process-count supports): one shard per kill point
     for n in BOUNDS[tier]['procs']:
         for k in range(MP_WRITES + 1):
@@ -108,6 +112,8 @@ class World:
             a += [flags[KINDS[k]], os.path.join(self.out, KINDS[k])]
         if self.skip_missing_xml:
             a += ['--skipp-missing-xml']
+        if getattr(self, 'input_logits', None):
+            a += ['--input-logit-path', self.input_logits]
         return a
 
     def run(self, crash_before=None):
@@ -229,7 +235,7 @@ def complete_pages(state, ref, ids):
 
 def evaluate(world, hist, ref, ctx, case):
     """state reached by `hist` is on disk; run the final uninterrupted resume and check all clauses"""
-    K = f'{ID}/{"+".join(KINDS[k] for k in world.subset)}'
+    K = f'{ID}/{"+".join(KINDS[k] for k in world.subset)}' + ('/parser-without-ocr-fed-with-saved-logits' if getattr(world, 'input_logits', None) else '')
     before = canon(world.snapshot())
     done_before = complete_pages(before, ref, world.ids)
     r = world.run(None)
@@ -264,7 +270,24 @@ def explore(shard, ctx, tier, only_hist=None):
     b = BOUNDS[tier]
     full = len(shard['subset']) == 5
     depth = b['crashes_full'] if full else b['crashes_other']
-    world = World(shard['subset'], shard['ids'], 'w', npages=shard.get('pages', 2))
+    if shard.get('inlogits'):
+        # inputs = the PAGE XML and logits an earlier complete run (with OCR) produced; the parser under test only loads them
+        src = World([0, 2], shard['ids'], 'src', npages=shard.get('pages', 2))
+        try:
+            rs = src.run(None)
+            if rs['error'] or rs['killed']:
+                ctx.harness_errors.append(f'source run for input logits failed: {rs["error"]}')
+                return
+            world = World(shard['subset'], shard['ids'], 'w', npages=shard.get('pages', 2), model_free=True)
+            shutil.rmtree(os.path.join(world.root, 'xml'))
+            shutil.copytree(os.path.join(src.out, 'xml'), os.path.join(world.root, 'xml'))
+            shutil.copytree(os.path.join(src.out, 'logits'), os.path.join(world.root, 'inlogits'))
+            world.input_logits = os.path.join(world.root, 'inlogits')
+        finally:
+            src.close()
+        ctx.tag('parser-without-ocr-fed-with-saved-logits')
+    else:
+        world = World(shard['subset'], shard['ids'], 'w', npages=shard.get('pages', 2))
     try:
         r0 = world.run(None)
         ctx.executed()
@@ -301,7 +324,7 @@ def explore(shard, ctx, tier, only_hist=None):
             nxt = []
             for key in frontier:
                 snap, hist = seen[key]
-                ctx.state((tuple(shard['subset']), shard['ids'], key))
+                ctx.state((tuple(shard['subset']), shard['ids'], bool(shard.get('inlogits')), key))
                 # the final resume from this state
                 world.restore(snap)
                 ctx.begin_case(dict(shard, hist=hist))
@@ -422,7 +445,8 @@ def run_shard(shard, ctx, tier):
 def check_case(case, ctx):
     if 'mp' in case:
         return explore_mp(case, ctx)
-    explore({'subset': case['subset'], 'ids': case['ids'], 'pages': case.get('pages', 2)}, ctx, 'replay', only_hist=case['hist'])
+    explore({'subset': case['subset'], 'ids': case['ids'], 'pages': case.get('pages', 2), 'inlogits': case.get('inlogits', 0)}, ctx, 'replay',
+            only_hist=case['hist'])
 
 
 def describe(tier):
@@ -433,5 +457,5 @@ def describe(tier):
         'bounds': dict(BOUNDS[tier], subsets=len(subsets(tier)), id_sets=ID_SETS),
         'alphabets': {'outputs': KINDS, 'page_ids': ID_SETS},
         'assumptions': ['a kill leaves every earlier write complete and the interrupted one absent (no torn files)'],
-        'min_nontrivial': 20, 'required_tags': ['interrupted-states', 'state-with-partially-written-page', 'multi-process-resume', 'fewer-pages-left-than-worker-processes'],
+        'min_nontrivial': 20, 'required_tags': ['interrupted-states', 'state-with-partially-written-page', 'multi-process-resume', 'fewer-pages-left-than-worker-processes', 'parser-without-ocr-fed-with-saved-logits'],
     }
